@@ -59,6 +59,14 @@ Theorem archive_is_prefix : forall k tr,
 Proof. exact archive_is_prefix. Qed.
 Print Assumptions archive_is_prefix.
 
+(* the archive's row lookup (`assert len(row) == 1`) cannot fail: with distinct chain keys the pointer
+   (chain_num, iter) alone identifies the row *)
+Theorem archive_lookup_unique : forall tr r1 r2, NoDup (map fst tr) ->
+  In r1 (topologies tr) -> In r2 (topologies tr) ->
+  rchain r1 = rchain r2 -> riter r1 = riter r2 -> r1 = r2.
+Proof. exact pointer_identifies_row. Qed.
+Print Assumptions archive_lookup_unique.
+
 (* MAP (frequency): a row of maximal count *)
 Theorem freq_mode_is_max_count : forall tr r, freq_mode tr = Some r ->
   In r (topologies tr) /\ forall r', In r' (topologies tr) -> (rcount r' <= rcount r)%nat.
